@@ -4,12 +4,30 @@ import ps, oracle, countlib
 LEVEL = "proof"
 THEOREMS = ["C04_count_additive", "C04_small_primes_split", "C04_tiling_counts", "C04_segments_ok", "C04_segments_terminate", "C04_step_tables_ok", "C04_step_lift",
             "C04_cross_off_refines", "C04_kernel_segment", "C04_kernel_next_states", "C04_addSievingPrime_state", "C04_addSievingPrime_none",
-            "C04_erat_kernel_correct", "C04_surviving_are_primes", "C04_kernel_run_example"]
+            "C04_erat_kernel_correct", "C04_surviving_are_primes", "C04_kernel_run_example", "C04_presieve_tables_ok", "C04_primeBits_ok"]
 ASSUMPTIONS = [
     "erat_spec (the segmented sieve marks exactly the primes of [max(start,7), stop]) is the hypothesis under which the count equals the specification. Proved of the kernel: segment geometry, step tables, cross-off loop = specification, the per-segment theorem (bit set iff prime), state hand-over between segments, addSievingPrime's initial state. NOT proved: their assembly over the segment loop, SievingPrimes, presieve, EratMedium/EratBig bucket lists and SievingPrime bit packing, bit decoding, masking at the interval ends - exercised by the correspondence at segment seams, byte/bit edges, p*q boundaries, sieve arrays above 4 MiB, 7 sieve sizes, 1..16 threads, two dispatch builds, and by the cross-off unit comparison (XOFF)",
     "popcount (POPCNT instruction / Harley-Seal) is modelled as the number of set bits",
 ]
 EXPLANATION = "Coq theorems on additivity / tiling / the 2,3,5 split + kernel-boundary correspondence of count_primes (C++ and C) with an independent segmented sieve"
+
+
+def coq_eval_presieve(cases):
+    """evaluate Model/PreSieveM.presieve_segment for the cases with vm_compute (one coqc run); one line of bytes per case"""
+    import os, re
+    d = os.path.join(ps.BUILD, "c04"); os.makedirs(d, exist_ok=True)
+    f = os.path.join(d, "presieve_cases.v")
+    with open(f, "w") as fh:
+        fh.write("From Coq Require Import NArith List.\nImport ListNotations.\nFrom PS Require Import Model.PreSieveM.\nLocal Open Scope N_scope.\n")
+        for low, size in cases:
+            fh.write("Eval vm_compute in (presieve_segment %d %d).\n" % (low, size))
+    rc, o, e = ps.run(["coqc", "-Q", ps.COQ, "PS", f], timeout=900, cwd=d)
+    if rc != 0:
+        return "coqc failed: " + (e or o)[-300:]
+    out = []
+    for blk in re.findall(r"=\s*\[(.*?)\]\s*:\s*list N", o, flags=re.S):
+        out.append(" ".join(x.strip().replace("%N", "") for x in blk.replace("\n", " ").split(";") if x.strip()))
+    return "\n".join(out)
 
 
 def _oracle_counts(a, b):
@@ -120,6 +138,24 @@ def correspond(ctx, scale=1):
         sigs.add(("xoff", c[0] % 30, a_.startswith("|"), c[3] > c[2]))
         if a_.strip() != b_.strip():
             mm.append({"key": "cross-off", "what": "EratSmall::crossOff(prime %d, segment base %d, %d bytes, L1 %d, state %s): implementation changes %s..., model %s..." % (c[0], c[1], c[3], c[2], s_, a_[:120], b_[:120]), "failing_input": None})
+    # pre-sieve unit level: PreSieve::preSieve on segments at every magnitude (incl. segmentLow <= 163 and the wrap-around of every
+    # table) vs the model over the extracted tables
+    pc = [(0, 40), (30, 20), (150, 10), (180, 10), (30 * 5957 - 60, 30), (30 * 6683 - 30, 64)]
+    for _ in range(24 * min(scale, 2)):
+        pc.append((30 * rng.below(1 << rng.between(1, 58)), rng.between(1, 80)))
+    rc, o, e = ps.run([kp], input="".join("PRESIEVE %d %d\n" % c for c in pc), timeout=300)
+    # the model is evaluated inside Coq (vm_compute): the 123 KB of tables are not extracted to OCaml
+    om = coq_eval_presieve(pc)
+    dist["presieve_units"] = len(pc)
+    if len(om.splitlines()) != len(pc) or len(o.splitlines()) != len(pc):
+        mm.append({"key": "presieve", "what": "pre-sieve unit comparison did not run: %d model results, %d implementation results for %d cases (%s)" % (len(om.splitlines()), len(o.splitlines()), len(pc), om[:200]), "failing_input": None})
+    for c, a_, b_ in zip(pc, o.splitlines(), om.splitlines()):
+        ev += 1
+        sigs.add(("presieve", c[0] <= 163, c[1] > 64))
+        if a_.strip() != b_.strip():
+            av, bvv = a_.split(), b_.split()
+            j = next((i for i in range(min(len(av), len(bvv))) if av[i] != bvv[i]), min(len(av), len(bvv)))
+            mm.append({"key": "presieve", "what": "PreSieve::preSieve(segmentLow %d, %d bytes): byte %d is %s, the model over the source tables says %s" % (c[0], c[1], j, av[j:j + 1], bvv[j:j + 1]), "failing_input": None})
     # the model kernel as a whole (the function erat_kernel_correct is about: geometry model, addSievingPrime, cross-off loop over the
     # extracted table) on multi-segment intervals vs the implementation and the independent oracle: count, checksum, first, last
     kr = []
